@@ -287,9 +287,9 @@ class HelixObject:
     @property
     def position(self) -> vector.VectorObject3D:
         return vector.VectorObject3D(
-            x=self.dr * math.cos(self.phi0),
-            y=self.dr * math.sin(self.phi0),
-            z=self.dz,
+            x=self.pivot.x + self.dr * math.cos(self.phi0),
+            y=self.pivot.y + self.dr * math.sin(self.phi0),
+            z=self.pivot.z + self.dz,
         )
 
     @property
@@ -573,10 +573,10 @@ def _compute_momentum(kappa, tanl, phi0):
     return pt, phi, pz
 
 
-def _compute_position(dr, phi0, dz):
-    x = dr_phi0_to_x(dr, phi0)
-    y = dr_phi0_to_y(dr, phi0)
-    z = dz
+def _compute_position(dr, phi0, dz, pivot):
+    x = pivot.x + dr_phi0_to_x(dr, phi0)
+    y = pivot.y + dr_phi0_to_y(dr, phi0)
+    z = pivot.z + dz
 
     return x, y, z
 
@@ -743,7 +743,7 @@ class HelixAwkwardRecord(ak.Record):
         Returns:
             vector.VectorObject3D: The position vector of the helix.
         """
-        x, y, z = _compute_position(self.dr, self.phi0, self.dz)
+        x, y, z = _compute_position(self.dr, self.phi0, self.dz, self.pivot)
         return ak.zip({"x": x, "y": y, "z": z}, with_name="Vector3D")
 
     @property
@@ -825,7 +825,7 @@ class HelixAwkwardArray(ak.Array):
         Returns:
             vector.VectorNumpy3D: The position vectors of the helix.
         """
-        x, y, z = _compute_position(self.dr, self.phi0, self.dz)
+        x, y, z = _compute_position(self.dr, self.phi0, self.dz, self.pivot)
         return ak.zip({"x": x, "y": y, "z": z}, with_name="Vector3D")
 
     @property
